@@ -1,11 +1,17 @@
 // Package c11 drives the real BindRequestReconciler.Reconcile (real Binder,
 // real binder plugins, real resource-reservation service) on
 // controller-runtime's fake client. An interceptor numbers every API call,
-// fails call k ("Fail") or call k and everything after it ("Crash"), plays the
-// API server for the pods/binding sub-resource and plays the GPU device plugin
-// (annotates reservation pods with a device index, or stays silent so that the
-// reservation service times out). Each run is emitted as a Coq case for
-// Run/C11.v: ordered API-call log, final store projection, returned result.
+// fails call k with an error of one of the kinds the API server answers with
+// ("Fail:<kind>": InternalError, ServerTimeout, NotFound, Conflict,
+// AlreadyExists, Forbidden) or call k and everything after it ("Crash"), lets
+// other actors change the store right before call k (the pod is bound to another
+// node, deleted, re-created with another UID; the BindRequest or a reservation
+// pod is deleted), plays the API server for the pods/binding sub-resource (409
+// Conflict for a pod that has a node name, is being deleted or fails the
+// Binding's UID precondition) and plays the GPU device plugin (annotates
+// reservation pods with a device index, or stays silent so that the reservation
+// service times out). Each run is emitted as a Coq case for Run/C11.v: ordered
+// API-call log, final store projection, returned result.
 package c11
 
 import (
@@ -90,17 +96,31 @@ type Scenario struct {
 	PodNode  int    `json:"podBoundTo"` // 0 unbound, 1 selected node, 2 another node
 
 	// initial side objects
-	Stale    []int `json:"staleLabels"`   // group labels already on the pod
-	PreRsv   []int `json:"preReservation"` // groups with an annotated reservation pod and a running sharer
-	BareRsv  []int `json:"bareReservation"` // groups with a reservation pod without device index and no sharer
-	PreCap   int   `json:"preCapCM"`       // 0 none, 1 owned by the pod, 2 foreign owner with data
-	PreEvar  int   `json:"preEvarCM"`
-	Orphans  []int `json:"orphanSharers"` // groups with a running sharer on the node but no reservation pod
-	NodeMissing bool `json:"nodeMissing"`
+	Stale       []int `json:"staleLabels"`     // group labels already on the pod
+	PreRsv      []int `json:"preReservation"`  // groups with an annotated reservation pod and a running sharer
+	BareRsv     []int `json:"bareReservation"` // groups with a reservation pod without device index and no sharer
+	PreCap      int   `json:"preCapCM"`        // 0 none, 1 owned by the pod, 2 foreign owner with data
+	PreEvar     int   `json:"preEvarCM"`
+	Orphans     []int `json:"orphanSharers"` // groups with a running sharer on the node but no reservation pod
+	NodeMissing bool  `json:"nodeMissing"`
 
-	DP     []int          `json:"devicePlugin"` // per watch (in order): device index, or -1 = silent (timeout)
-	Faults map[int]string `json:"faults"`       // call number (0-based) -> Fail | Crash
+	DP     []int            `json:"devicePlugin"` // per watch (in order): device index, or -1 = silent (timeout)
+	Faults map[int]string   `json:"faults"`       // call number (0-based) -> Fail:<kind> | Crash
+	Env    map[int][]string `json:"env"`          // call number -> what other actors do right before that call
 }
+
+// error kinds an injected failure can have (the ones the API server returns)
+var errKinds = []string{"Internal", "Timeout", "NotFound", "Conflict", "Exists", "Forbidden"}
+
+// what another actor can do to the store between two calls of the reconcile
+const (
+	envBindElsewhere = "bind-elsewhere"
+	envTerminate     = "terminate" // deleted, held by a finalizer: deletionTimestamp set
+	envRemove        = "remove"    // deleted and gone
+	envRecreate      = "recreate"  // removed and re-created under the same name with another UID
+	envDeleteBR      = "delete-request"
+	envDeleteRsvPfx  = "delete-reservation:" // + group id
+)
 
 func gname(g int) string { return fmt.Sprintf("g%d", g) }
 
@@ -114,20 +134,25 @@ type Call struct {
 }
 
 type world struct {
-	sc       Scenario
-	base     client.WithWatch
-	cl       client.WithWatch
-	rec      *controllers.BindRequestReconciler
-	n        int
-	crashed  bool
-	faults   map[int]string
-	log      []Call
-	watches  int
-	lastRsv  string
-	binds    int      // successful binding calls
-	bindTo   []string // target of every successful binding call
-	nodeHist []string // server-side nodeName of the pod after every call
-	marked   bool
+	sc                 Scenario
+	base               client.WithWatch
+	cl                 client.WithWatch
+	rec                *controllers.BindRequestReconciler
+	rrs                resourcereservation.Interface
+	envs               map[int][]string
+	envDone            int            // env steps of call numbers < envDone have been applied
+	uidN               int            // incarnation of the consumer pod: its UID is uid-p<uidN>
+	rsvGroup           map[string]int // reservation pod name -> group (the pod may be gone when it is named)
+	n                  int
+	crashed            bool
+	faults             map[int]string
+	log                []Call
+	watches            int
+	lastRsv            string
+	binds              int      // successful binding calls
+	bindTo             []string // target of every successful binding call
+	nodeHist           []string // server-side nodeName of the pod after every call
+	marked             bool
 	markBegin, markEnd int
 }
 
@@ -158,7 +183,7 @@ func nodeNameIndexer(o client.Object) []string {
 
 func (sc Scenario) consumerPod() *v1.Pod {
 	p := &v1.Pod{
-		ObjectMeta: metav1.ObjectMeta{Name: podName, Namespace: podNS, UID: "uid-p",
+		ObjectMeta: metav1.ObjectMeta{Name: podName, Namespace: podNS, UID: "uid-p1",
 			Labels: map[string]string{"app": "x"}, Annotations: map[string]string{}},
 		Spec:   v1.PodSpec{Containers: []v1.Container{{Name: "c0", Image: "img"}}},
 		Status: v1.PodStatus{Phase: v1.PodPending},
@@ -226,10 +251,10 @@ func sharerPod(g int) *v1.Pod {
 func preCM(name string, kind int) *v1.ConfigMap {
 	cm := &v1.ConfigMap{ObjectMeta: metav1.ObjectMeta{Name: name, Namespace: podNS}}
 	if kind == 1 {
-		cm.OwnerReferences = []metav1.OwnerReference{{APIVersion: "v1", Kind: "Pod", Name: podName, UID: "uid-p"}}
+		cm.OwnerReferences = []metav1.OwnerReference{{APIVersion: "v1", Kind: "Pod", Name: podName, UID: "uid-p1"}}
 		cm.Data = map[string]string{}
 	} else if kind == 3 {
-		cm.OwnerReferences = []metav1.OwnerReference{{APIVersion: "v1", Kind: "Pod", Name: podName, UID: "uid-p"}}
+		cm.OwnerReferences = []metav1.OwnerReference{{APIVersion: "v1", Kind: "Pod", Name: podName, UID: "uid-p1"}}
 		cm.Data = map[string]string{envVisible: "7", envVisibleBC: "7", envPortion: "0.5"}
 	} else {
 		cm.OwnerReferences = []metav1.OwnerReference{{APIVersion: "v1", Kind: "Pod", Name: "old", UID: "uid-old"}}
@@ -262,7 +287,7 @@ func (sc Scenario) bindRequest() *schedulingv1alpha2.BindRequest {
 
 func newWorld(sc Scenario) (*world, error) {
 	initOnce()
-	w := &world{sc: sc, faults: map[int]string{}}
+	w := &world{sc: sc, faults: map[int]string{}, envs: map[int][]string{}, uidN: 1, rsvGroup: map[string]int{}}
 	objs := []client.Object{sc.consumerPod()}
 	if !sc.NodeMissing {
 		objs = append(objs, &v1.Node{ObjectMeta: metav1.ObjectMeta{Name: nodeName}})
@@ -317,6 +342,7 @@ func (w *world) wire() error {
 	bp.RegisterPlugin(gpusharing.New(w.cl, false))
 	rrs := resourcereservation.NewService(false, w.cl, "img", 15*time.Millisecond,
 		rsvNS, "sa", "kai-resource-reservation", scaleNS, "", nil)
+	w.rrs = rrs
 	b := &markBinder{inner: binding.NewBinder(w.cl, rrs, bp), w: w}
 	w.rec = controllers.NewBindRequestReconciler(w.cl, theScheme, &record.FakeRecorder{},
 		&controllers.ReconcilerParams{MaxConcurrentReconciles: 1, RateLimiterBaseDelaySeconds: 1, RateLimiterMaxDelaySeconds: 1},
@@ -324,10 +350,10 @@ func (w *world) wire() error {
 	return nil
 }
 
-// reconcile runs one Reconcile with the given fault vector; the call counter
-// restarts at 0.
-func (w *world) reconcile(faults map[int]string) (res ctrl.Result, err error, panicked bool) {
-	w.n, w.crashed, w.faults, w.log, w.watches = 0, false, faults, nil, 0
+// reconcile runs one Reconcile with the given fault vector and the given
+// interleaved changes by other actors; the call counter restarts at 0.
+func (w *world) reconcile(faults map[int]string, envs map[int][]string) (res ctrl.Result, err error, panicked bool) {
+	w.n, w.crashed, w.faults, w.envs, w.envDone, w.log, w.watches = 0, false, faults, envs, 0, nil, 0
 	defer func() {
 		if r := recover(); r != nil {
 			panicked = true
@@ -338,26 +364,155 @@ func (w *world) reconcile(faults map[int]string) (res ctrl.Result, err error, pa
 	return
 }
 
-var errInjected = apierrors.NewInternalError(fmt.Errorf("injected fault"))
+// injected builds an error of the given kind as the API server would for this verb / object.
+func injected(kind, resource, name string) error {
+	gr := schema.GroupResource{Resource: resource}
+	cause := fmt.Errorf("injected fault")
+	switch kind {
+	case "Timeout":
+		return apierrors.NewServerTimeout(gr, "call", 1)
+	case "NotFound":
+		return apierrors.NewNotFound(gr, name)
+	case "Conflict":
+		return apierrors.NewConflict(gr, name, cause)
+	case "Exists":
+		return apierrors.NewAlreadyExists(gr, name)
+	case "Forbidden":
+		return apierrors.NewForbidden(gr, name, cause)
+	}
+	return apierrors.NewInternalError(cause)
+}
 
-// gate numbers the call and decides its injected outcome.
-func (w *world) gate(term, human string) (idx int, fail bool) {
+func faultKind(f string) string {
+	if strings.HasPrefix(f, "Fail:") {
+		return strings.TrimPrefix(f, "Fail:")
+	}
+	return "Internal"
+}
+
+// pre lets the other actors act: the changes scheduled right before the call
+// that is about to be numbered. Every interceptor function calls it first, so
+// that the call is classified and served on the changed store.
+func (w *world) pre() {
+	for ; w.envDone <= w.n; w.envDone++ {
+		for _, e := range w.envs[w.envDone] {
+			w.applyEnv(e)
+		}
+	}
+}
+
+// gate numbers the call and decides its injected outcome (nil = it reaches the API).
+func (w *world) gate(term, human, resource, name string) (idx int, fail error) {
 	idx = w.n
 	w.n++
 	out := "Ok"
 	if w.crashed {
-		out, fail = "Fail", true // after a crash nothing reaches the API any more
+		out, fail = "Fail", injected("Internal", resource, name) // after a crash nothing reaches the API any more
 	} else {
-		switch w.faults[idx] {
-		case "Fail":
-			out, fail = "Fail", true
-		case "Crash":
-			out, fail = "Crash", true
+		f := w.faults[idx]
+		switch {
+		case strings.HasPrefix(f, "Fail"):
+			out, fail = "Fail", injected(faultKind(f), resource, name)
+		case f == "Crash":
+			out, fail = "Crash", injected("Internal", resource, name)
 			w.crashed = true
 		}
 	}
 	w.log = append(w.log, Call{Term: term, Human: human, Outcome: out})
 	return
+}
+
+// ---- the other actors --------------------------------------------------------
+
+func (w *world) consumer() (*v1.Pod, bool) {
+	p := &v1.Pod{}
+	if err := w.base.Get(context.Background(), types.NamespacedName{Namespace: podNS, Name: podName}, p); err != nil {
+		return nil, false
+	}
+	return p, true
+}
+
+// removeConsumer deletes the consumer pod for good (finalizers stripped).
+func (w *world) removeConsumer() {
+	ctx := context.Background()
+	p, ok := w.consumer()
+	if !ok {
+		return
+	}
+	if len(p.Finalizers) > 0 {
+		terminating := p.DeletionTimestamp != nil
+		p.Finalizers = nil
+		_ = w.base.Update(ctx, p)
+		if terminating {
+			return // the fake client drops a terminating object with its last finalizer
+		}
+	}
+	_ = w.base.Delete(ctx, p)
+}
+
+func (w *world) applyEnv(e string) {
+	ctx := context.Background()
+	switch {
+	case e == envBindElsewhere:
+		// a direct binding by somebody else, through the same handler (no UID precondition)
+		_ = w.serveBinding(&v1.Pod{ObjectMeta: metav1.ObjectMeta{Namespace: podNS, Name: podName}},
+			&v1.Binding{ObjectMeta: metav1.ObjectMeta{Namespace: podNS, Name: podName}, Target: v1.ObjectReference{Kind: "Node", Name: otherNode}})
+	case e == envTerminate:
+		if p, ok := w.consumer(); ok && p.DeletionTimestamp == nil {
+			if len(p.Finalizers) == 0 {
+				p.Finalizers = []string{"example.com/hold"}
+				_ = w.base.Update(ctx, p)
+			}
+			_ = w.base.Delete(ctx, p)
+		}
+	case e == envRemove:
+		w.removeConsumer()
+	case e == envRecreate:
+		w.removeConsumer()
+		w.uidN++
+		sc := w.sc
+		sc.Stale, sc.PodNode = nil, 0
+		p := sc.consumerPod()
+		p.UID = types.UID(fmt.Sprintf("uid-p%d", w.uidN))
+		_ = w.base.Create(ctx, p)
+	case e == envDeleteBR:
+		br := &schedulingv1alpha2.BindRequest{ObjectMeta: metav1.ObjectMeta{Namespace: podNS, Name: brName}}
+		_ = w.base.Delete(ctx, br)
+	case strings.HasPrefix(e, envDeleteRsvPfx):
+		g := strings.TrimPrefix(e, envDeleteRsvPfx)
+		pods := &v1.PodList{}
+		_ = w.base.List(ctx, pods, client.InNamespace(rsvNS), client.MatchingLabels{lblGroup: "g" + g})
+		for i := range pods.Items {
+			_ = w.base.Delete(ctx, &pods.Items[i], client.GracePeriodSeconds(0))
+		}
+	}
+}
+
+// serveBinding is the API server's pods/binding handler (BindingREST.Create ->
+// assignPod -> setPodNodeAndMetadata in k8s.io/kubernetes/pkg/registry/core/pod/storage):
+// a missing pod is NotFound; a failed UID precondition, a pod that is being
+// deleted and a pod that already has a node name - whichever node - are 409
+// Conflict; otherwise spec.nodeName is set.
+func (w *world) serveBinding(p *v1.Pod, b *v1.Binding) error {
+	ctx := context.Background()
+	cur := &v1.Pod{}
+	if err := w.base.Get(ctx, client.ObjectKeyFromObject(p), cur); err != nil {
+		return err
+	}
+	conflict := func(msg string) error {
+		return apierrors.NewConflict(schema.GroupResource{Resource: "pods/binding"}, p.Name, fmt.Errorf("%s", msg))
+	}
+	if b.UID != "" && b.UID != cur.UID {
+		return conflict(fmt.Sprintf("Precondition failed: UID in precondition: %v, UID in object meta: %v", b.UID, cur.UID))
+	}
+	if cur.DeletionTimestamp != nil {
+		return conflict(fmt.Sprintf("pod %s is being deleted, cannot be assigned to a host", cur.Name))
+	}
+	if cur.Spec.NodeName != "" {
+		return conflict(fmt.Sprintf("pod %v is already assigned to node %q", cur.Name, cur.Spec.NodeName))
+	}
+	cur.Spec.NodeName = b.Target.Name
+	return w.base.Update(ctx, cur)
 }
 
 // done records a refusal by the API itself (not injected) and samples the
@@ -417,6 +572,9 @@ func (w *world) podRef(ns, name string, obj *v1.Pod) string {
 			if gg, ok := gid(obj.Labels[lblGroup]); ok {
 				g = gg
 			}
+		}
+		if gg, ok := w.rsvGroup[name]; ok && g < 0 {
+			g = gg
 		}
 		if g < 0 {
 			cur := &v1.Pod{}
@@ -648,95 +806,126 @@ type silentWatch struct{ ch chan watch.Event }
 func (s *silentWatch) Stop()                          {}
 func (s *silentWatch) ResultChan() <-chan watch.Event { return s.ch }
 
+// ownerNum is the UID number of the consumer incarnation that is the only owner, 0 otherwise.
+func ownerNum(refs []metav1.OwnerReference) int {
+	if len(refs) != 1 || refs[0].Name != podName || refs[0].Kind != "Pod" {
+		return 0
+	}
+	var n int
+	if _, err := fmt.Sscanf(string(refs[0].UID), "uid-p%d", &n); err != nil || fmt.Sprintf("uid-p%d", n) != string(refs[0].UID) {
+		return 0
+	}
+	return n
+}
+
 func (w *world) funcs() interceptor.Funcs {
 	ctxb := context.Background()
 	return interceptor.Funcs{
 		Get: func(ctx context.Context, c client.WithWatch, key client.ObjectKey, obj client.Object, opts ...client.GetOption) error {
-			var term string
+			w.pre()
+			var term, res string
 			switch obj.(type) {
 			case *schedulingv1alpha2.BindRequest:
-				term = "CGetBR"
+				term, res = "CGetBR", "bindrequests"
 			case *v1.Pod:
-				term = "(CGetPod " + w.podRef(key.Namespace, key.Name, nil) + ")"
+				term, res = "(CGetPod "+w.podRef(key.Namespace, key.Name, nil)+")", "pods"
 			case *v1.Node:
-				term = "CGetNode"
+				term, res = "CGetNode", "nodes"
 			case *v1.ConfigMap:
-				term = "(CGetCM " + cmRef(key.Namespace, key.Name) + ")"
+				term, res = "(CGetCM "+cmRef(key.Namespace, key.Name)+")", "configmaps"
 			default:
-				term = "COther"
+				term, res = "COther", "objects"
 			}
-			i, fail := w.gate(term, fmt.Sprintf("get %s %s", kindOf(obj), key))
-			if fail {
-				return w.done(i, errInjected)
+			i, fail := w.gate(term, fmt.Sprintf("get %s %s", kindOf(obj), key), res, key.Name)
+			if fail != nil {
+				return w.done(i, fail)
 			}
 			return w.done(i, c.Get(ctx, key, obj, opts...))
 		},
 		List: func(ctx context.Context, c client.WithWatch, list client.ObjectList, opts ...client.ListOption) error {
+			w.pre()
 			term, human := "LOther", ""
 			if _, ok := list.(*v1.PodList); ok {
 				term, human = listTerm(opts)
 			}
-			i, fail := w.gate("(CList "+term+")", "list "+kindOf(list)+" "+human)
-			if fail {
-				return w.done(i, errInjected)
+			i, fail := w.gate("(CList "+term+")", "list "+kindOf(list)+" "+human, "pods", "")
+			if fail != nil {
+				return w.done(i, fail)
 			}
 			return w.done(i, c.List(ctx, list, opts...))
 		},
 		Create: func(ctx context.Context, c client.WithWatch, obj client.Object, opts ...client.CreateOption) error {
-			term := "COther"
+			w.pre()
+			term, res := "COther", "objects"
 			switch o := obj.(type) {
 			case *v1.Pod:
+				res = "pods"
 				if o.Namespace == rsvNS && o.Spec.NodeName == nodeName {
 					if g, ok := gid(o.Labels[lblGroup]); ok {
 						term = fmt.Sprintf("(CCreateRsv %d)", g)
 					}
 				}
 			case *v1.ConfigMap:
-				owned := len(o.OwnerReferences) == 1 && o.OwnerReferences[0].UID == "uid-p" && len(o.Data) == 0
-				term = fmt.Sprintf("(CCreateCM %s %v)", cmRef(o.Namespace, o.Name), owned)
+				res = "configmaps"
+				owner := ownerNum(o.OwnerReferences)
+				if len(o.Data) != 0 {
+					owner = 0
+				}
+				term = fmt.Sprintf("(CCreateCM %s %d)", cmRef(o.Namespace, o.Name), owner)
 			}
-			i, fail := w.gate(term, fmt.Sprintf("create %s %s/%s", kindOf(obj), obj.GetNamespace(), obj.GetName()))
-			if fail {
-				return w.done(i, errInjected)
+			i, fail := w.gate(term, fmt.Sprintf("create %s %s/%s", kindOf(obj), obj.GetNamespace(), obj.GetName()), res, obj.GetName())
+			if fail != nil {
+				return w.done(i, fail)
 			}
 			err := c.Create(ctx, obj, opts...)
 			if p, ok := obj.(*v1.Pod); ok && err == nil && p.Namespace == rsvNS {
 				w.lastRsv = p.Name
+				if g, ok := gid(p.Labels[lblGroup]); ok {
+					w.rsvGroup[p.Name] = g
+				}
 			}
 			return w.done(i, err)
 		},
 		Delete: func(ctx context.Context, c client.WithWatch, obj client.Object, opts ...client.DeleteOption) error {
-			term := "COther"
+			w.pre()
+			term, res := "COther", "objects"
 			switch o := obj.(type) {
 			case *v1.Pod:
-				term = "(CDeletePod " + w.podRef(o.Namespace, o.Name, o) + ")"
+				term, res = "(CDeletePod "+w.podRef(o.Namespace, o.Name, o)+")", "pods"
 			case *v1.ConfigMap:
-				term = "(CDeleteCM " + cmRef(o.Namespace, o.Name) + ")"
+				term, res = "(CDeleteCM "+cmRef(o.Namespace, o.Name)+")", "configmaps"
 			case *schedulingv1alpha2.BindRequest:
-				term = "CDeleteBR"
+				term, res = "CDeleteBR", "bindrequests"
 			}
-			i, fail := w.gate(term, fmt.Sprintf("delete %s %s/%s", kindOf(obj), obj.GetNamespace(), obj.GetName()))
-			if fail {
-				return w.done(i, errInjected)
+			i, fail := w.gate(term, fmt.Sprintf("delete %s %s/%s", kindOf(obj), obj.GetNamespace(), obj.GetName()), res, obj.GetName())
+			if fail != nil {
+				return w.done(i, fail)
 			}
 			return w.done(i, c.Delete(ctx, obj, opts...))
 		},
 		Update: func(ctx context.Context, c client.WithWatch, obj client.Object, opts ...client.UpdateOption) error {
-			i, fail := w.gate("COther", fmt.Sprintf("update %s %s/%s", kindOf(obj), obj.GetNamespace(), obj.GetName()))
-			if fail {
-				return w.done(i, errInjected)
+			w.pre()
+			i, fail := w.gate("COther", fmt.Sprintf("update %s %s/%s", kindOf(obj), obj.GetNamespace(), obj.GetName()), "objects", obj.GetName())
+			if fail != nil {
+				return w.done(i, fail)
 			}
 			return w.done(i, c.Update(ctx, obj, opts...))
 		},
 		Patch: func(ctx context.Context, c client.WithWatch, obj client.Object, patch client.Patch, opts ...client.PatchOption) error {
+			w.pre()
 			term, human := w.patchTerm(obj, patch)
-			i, fail := w.gate(term, fmt.Sprintf("patch %s %s/%s %s", kindOf(obj), obj.GetNamespace(), obj.GetName(), human))
-			if fail {
-				return w.done(i, errInjected)
+			res := "pods"
+			if _, ok := obj.(*v1.ConfigMap); ok {
+				res = "configmaps"
+			}
+			i, fail := w.gate(term, fmt.Sprintf("patch %s %s/%s %s", kindOf(obj), obj.GetNamespace(), obj.GetName(), human), res, obj.GetName())
+			if fail != nil {
+				return w.done(i, fail)
 			}
 			return w.done(i, c.Patch(ctx, obj, patch, opts...))
 		},
 		Watch: func(ctx context.Context, c client.WithWatch, list client.ObjectList, opts ...client.ListOption) (watch.Interface, error) {
+			w.pre()
 			lo := &client.ListOptions{}
 			lo.ApplyOptions(opts)
 			name := ""
@@ -746,14 +935,16 @@ func (w *world) funcs() interceptor.Funcs {
 			cur := &v1.Pod{}
 			found := w.base.Get(ctxb, types.NamespacedName{Namespace: rsvNS, Name: name}, cur) == nil
 			term := "COther"
-			if found && lo.Namespace == rsvNS {
-				if g, ok := gid(cur.Labels[lblGroup]); ok {
+			if lo.Namespace == rsvNS {
+				if g, ok := w.rsvGroup[name]; ok {
+					term = fmt.Sprintf("(CWatchRsv %d)", g)
+				} else if g, ok := gid(cur.Labels[lblGroup]); found && ok {
 					term = fmt.Sprintf("(CWatchRsv %d)", g)
 				}
 			}
-			i, fail := w.gate(term, fmt.Sprintf("watch Pod %s/%s", lo.Namespace, name))
-			if fail {
-				return nil, w.done(i, errInjected)
+			i, fail := w.gate(term, fmt.Sprintf("watch Pod %s/%s", lo.Namespace, name), "pods", name)
+			if fail != nil {
+				return nil, w.done(i, fail)
 			}
 			// the device plugin: answers with a device index, or stays silent
 			ans := -1
@@ -778,6 +969,7 @@ func (w *world) funcs() interceptor.Funcs {
 			return fw, w.done(i, nil)
 		},
 		SubResourceCreate: func(ctx context.Context, c client.Client, sub string, obj client.Object, subObj client.Object, opts ...client.SubResourceCreateOption) error {
+			w.pre()
 			b, isB := subObj.(*v1.Binding)
 			p, isP := obj.(*v1.Pod)
 			term := "COther"
@@ -789,24 +981,14 @@ func (w *world) funcs() interceptor.Funcs {
 					term = "(CBind false)"
 				}
 			}
-			i, fail := w.gate(term, fmt.Sprintf("create %s/%s %s/%s", kindOf(obj), sub, obj.GetNamespace(), obj.GetName()))
-			if fail {
-				return w.done(i, errInjected)
+			i, fail := w.gate(term, fmt.Sprintf("create %s/%s %s/%s", kindOf(obj), sub, obj.GetNamespace(), obj.GetName()), "pods/binding", obj.GetName())
+			if fail != nil {
+				return w.done(i, fail)
 			}
 			if sub != "binding" || !isB || !isP {
 				return w.done(i, fmt.Errorf("unsupported sub-resource %s", sub))
 			}
-			// the API server's pods/binding: assigns spec.nodeName once
-			cur := &v1.Pod{}
-			if err := w.base.Get(ctxb, client.ObjectKeyFromObject(p), cur); err != nil {
-				return w.done(i, err)
-			}
-			if cur.Spec.NodeName != "" {
-				return w.done(i, apierrors.NewConflict(schema.GroupResource{Resource: "pods/binding"}, p.Name,
-					fmt.Errorf("pod %s is already assigned to node %q", p.Name, cur.Spec.NodeName)))
-			}
-			cur.Spec.NodeName = b.Target.Name
-			if err := w.base.Update(ctxb, cur); err != nil {
+			if err := w.serveBinding(p, b); err != nil {
 				return w.done(i, err)
 			}
 			w.binds++
@@ -814,15 +996,17 @@ func (w *world) funcs() interceptor.Funcs {
 			return w.done(i, nil)
 		},
 		SubResourcePatch: func(ctx context.Context, c client.Client, sub string, obj client.Object, patch client.Patch, opts ...client.SubResourcePatchOption) error {
+			w.pre()
 			data, _ := patch.Data(obj)
-			term := "COther"
+			term, res := "COther", "objects"
 			switch o := obj.(type) {
 			case *schedulingv1alpha2.BindRequest:
+				res = "bindrequests/status"
 				if sub == "status" {
 					var m struct {
 						Status struct {
 							Phase          *string `json:"phase"`
-							FailedAttempts *int32 `json:"failedAttempts"`
+							FailedAttempts *int32  `json:"failedAttempts"`
 						} `json:"status"`
 					}
 					_ = json.Unmarshal(data, &m)
@@ -837,6 +1021,7 @@ func (w *world) funcs() interceptor.Funcs {
 					term = fmt.Sprintf("(CPatchBRStatus %s %s)", ph, att)
 				}
 			case *v1.Pod:
+				res = "pods/status"
 				if sub == "status" && o.Namespace == podNS && o.Name == podName {
 					var m struct {
 						Status struct {
@@ -849,9 +1034,9 @@ func (w *world) funcs() interceptor.Funcs {
 					}
 				}
 			}
-			i, fail := w.gate(term, fmt.Sprintf("patch %s/%s %s/%s %s", kindOf(obj), sub, obj.GetNamespace(), obj.GetName(), string(data)))
-			if fail {
-				return w.done(i, errInjected)
+			i, fail := w.gate(term, fmt.Sprintf("patch %s/%s %s/%s %s", kindOf(obj), sub, obj.GetNamespace(), obj.GetName(), string(data)), res, obj.GetName())
+			if fail != nil {
+				return w.done(i, fail)
 			}
 			return w.done(i, c.SubResource(sub).Patch(ctx, obj, patch, opts...))
 		},
